@@ -216,10 +216,11 @@ def run_standin(tier="quick", seed=0):
             cs2, st2, it2, _ = run(prob, strat, it, x0v)
             if st2 != st or it2 != it:
                 why = "converged with status %d after %d iterations, but with max_iter=%d reports status %d (iter %d)" % (st, it, it, st2, it2)
-        if why and fams[prob] not in bad:
-            bad[fams[prob]] = dict(problem=fams[prob], strategy=strat, max_iter=mi, x0=x0v, costs=cs[:12], status=st, iter=it, why=why)
+        famname = fams[prob] if prob != 4 else "%s/%s" % (fams[prob], "disney" if strat == 1 else "ceres")
+        if why and famname not in bad:
+            bad[famname] = dict(problem=famname, strategy=strat, max_iter=mi, x0=x0v, costs=cs[:12], status=st, iter=it, why=why)
     res.standins.append(dict(function="smooth::minimize", points=runs, grid="5 problem families x 2 strategies x max_iter in {1,2,5,20,100}", label="bounded"))
-    for fam in fams.values():
+    for fam in [v for k_, v in fams.items() if k_ != 4] + ["small-units-linear/ceres", "small-units-linear/disney"]:
         oid = "%s/%s" % (tag, fam)
         if fam in bad:
             payload = dict(obligation=oid, property=PROP, backend="bounded-standin", reason=bad[fam]["why"], witness=bad[fam])
